@@ -46,6 +46,13 @@ type helloCase struct {
 	// CfgMin / CfgMax: version bounds the caller left in the Config handed to UClient (0 = unset)
 	CfgMin int `json:"cfg_min"`
 	CfgMax int `json:"cfg_max"`
+	// SNI2: the hello is first built for SNI, then SetSNI(SNI2) is called and the connection handshakes; the hello on
+	// the wire (a second marshal over the state of the first) must be the spec's hello for SNI2
+	SNI2 string `json:"sni2"`
+	// FP: every connection of the case is a HelloCustom connection whose spec is fingerprinted from ONE captured hello
+	// of the parrot (the capture is made once per case)
+	FP    bool `json:"fp"`
+	fpRaw []byte
 }
 
 // hellos: {"cases":[{id,sni,alpn,n,omit}]} -> per connection {ev:"Hello", id, sni, k, raw (wire bytes of
@@ -65,6 +72,16 @@ func init() {
 			if c.N == 0 {
 				c.N = 1
 			}
+			if c.FP {
+				if id0, err := hlib.LookupID(c.ID); err == nil {
+					c0, _ := hlib.BufPipe()
+					u0 := tls.UClient(c0, &tls.Config{ServerName: c.SNI, OmitEmptyPsk: true}, id0)
+					if err := u0.BuildHandshakeState(); err == nil {
+						raw := u0.HandshakeState.Hello.Raw
+						c.fpRaw = append([]byte{22, 3, 1, byte(len(raw) >> 8), byte(len(raw))}, raw...)
+					}
+				}
+			}
 			for k := 0; k < c.N; k++ {
 				jobs = append(jobs, job{c, k})
 			}
@@ -83,7 +100,27 @@ func init() {
 				cfg.InsecureSkipVerify = true
 			}
 			u, wire, herr, pn := wireHello(func(c *hlib.BufConn) *tls.UConn {
+				if j.c.FP {
+					if j.c.fpRaw == nil {
+						return nil
+					}
+					spec, err := (&tls.Fingerprinter{}).FingerprintClientHello(j.c.fpRaw)
+					if err != nil {
+						return nil
+					}
+					u := tls.UClient(c, cfg, tls.HelloCustom)
+					if err := u.ApplyPreset(spec); err != nil {
+						return nil
+					}
+					return u
+				}
 				u := tls.UClient(c, cfg, id)
+				if j.c.SNI2 != "" {
+					if err := u.BuildHandshakeState(); err != nil {
+						return u
+					}
+					u.SetSNI(j.c.SNI2)
+				}
 				if j.c.SharedWith != "" {
 					// two connections share one *Config: this one is built first, then another parrot is built on
 					// the same Config, and only then this one handshakes
@@ -99,7 +136,11 @@ func init() {
 				return u
 			})
 			chs := hlib.ClientHellos(wire)
-			ev := map[string]any{"ev": "Hello", "id": j.c.ID, "sni": hlib.Ints([]byte(j.c.SNI)), "k": j.k, "tag": j.c.Tag,
+			name := j.c.SNI
+			if j.c.SNI2 != "" {
+				name = j.c.SNI2
+			}
+			ev := map[string]any{"ev": "Hello", "id": j.c.ID, "sni": hlib.Ints([]byte(name)), "k": j.k, "tag": j.c.Tag,
 				"nrec": len(hlib.Records(wire)), "panic": pn, "err": hlib.ErrStr(herr)}
 			if len(chs) > 0 {
 				ev["raw"] = hlib.Ints(chs[0])
